@@ -947,6 +947,9 @@ class EClass(EClassifier):
     def __compute_supertypes(self):
         eSuperTypes = list(self.eSuperTypes)
         eSuperTypes.extend(x.eClassifier for x in self.eGenericSuperTypes if x.eClassifier is not None)
+        # a class named twice (Ecore lists a super type in eSuperTypes and,
+        # with its type arguments, in eGenericSuperTypes) is one base
+        eSuperTypes = list(dict.fromkeys(eSuperTypes))
         if not eSuperTypes:  # also: generic super types without classifier (yet)
             return (EObject,)
         if len(eSuperTypes) > 1 and EObject.eClass in eSuperTypes:
